@@ -59,16 +59,27 @@ func c11A5Locations(m *c11Model) *c11Locs {
 			if ev.kind != "store" || ev.lhs.k != "index" || ev.rhs.k != "call" || ev.rhs.name != "append" || len(ev.rhs.xs) != 2 {
 				continue
 			}
+			// the location map: a fresh make(map…), or a map obtained elsewhere (a pool, a helper, a field): any
+			// term that receives `m[key] = append(m[key], <location struct>)`
 			mp := ev.lhs.xs[0]
-			if mp.k != "call" || !strings.HasPrefix(mp.name, "make@") {
-				continue
-			}
-			if _, ok := mp.typ.Underlying().(*types.Map); !ok {
+			fresh := mp.k == "call" && strings.HasPrefix(mp.name, "make@")
+			if fresh {
+				if _, ok := mp.typ.Underlying().(*types.Map); !ok {
+					continue
+				}
+			} else if mp.k == "assert" {
+				if _, ok := mp.typ.Underlying().(*types.Map); !ok {
+					continue
+				}
+			} else if mp.k != "call" && mp.k != "res" && mp.k != "field" && mp.k != "sym" {
 				continue
 			}
 			s := ev.rhs.xs[1]
 			if s.k != "struct" || p.st.heap[s.id] == nil {
 				continue
+			}
+			if !fresh && !c11MapEmptied(m.paths, p.st, mp, ev.nas) {
+				bad = append(bad, "the location map "+m.short(mp)+" is not made by this call and is not emptied (clear(m), or a loop deleting every key) before `"+src(r.P.Fset, ev.node)+"` fills it: locations recorded by an earlier call would be annotated and turned into updates as well")
 			}
 			pos = ev.node.Pos()
 			if a0 := ev.rhs.xs[0]; a0.key() != ev.lhs.key() && !(a0.k == "call" && strings.HasPrefix(a0.name, "make@")) {
@@ -732,7 +743,7 @@ func (m *c11Model) a5Window(locs *c11Locs) {
 			}
 			switch guard(w.startN) {
 			case c11T:
-				if !dep {
+				if !dep && !w.E.isConstInt(0) { // the bound 0 ("no updates") cannot run past anything
 					endBad = append(endBad, "a next parent version exists (I < len(parents)-1) but neither the bound "+m.short(w.E)+" nor a decision before it depends on parents[I+1]: the window would not end at the child version of the next parent version")
 				}
 			case c11U:
@@ -942,4 +953,38 @@ func (m *c11Model) a5Results(locs *c11Locs) {
 	default:
 		r.OK(c, pos, "the list accumulated by the window loop (empty when the loop is entered) is appended to results[I] in every group iteration that runs the loop; results = make(…, len(parents)) is what the success path returns: result i belongs to parents[i]")
 	}
+}
+
+// c11MapEmptied: before the first upto decisions ended, the path has emptied map mp: clear(mp), or a completed
+// `for k := range mp { delete(mp, k) }`.
+func c11MapEmptied(paths []c11Out, st *c11St, mp *c11V, upto int) bool {
+	for _, ev := range st.ev {
+		if ev.nas > upto {
+			break
+		}
+		if ev.kind == "call" && ev.call.name == "clear" && len(ev.call.xs) == 1 && ev.call.xs[0].key() == mp.key() {
+			return true
+		}
+		if ev.kind == "loop" && ev.x != nil && ev.x.key() == mp.key() {
+			key := c11Sym("iter@"+ev.key+":key", nil)
+			all, some := true, false
+			for _, p := range paths {
+				if p.ctl != c11Back || p.loopKey != ev.key {
+					continue
+				}
+				del := false
+				for _, e2 := range p.st.ev {
+					if e2.kind == "call" && e2.call.name == "delete" && len(e2.call.xs) == 2 && e2.call.xs[0].key() == mp.key() && e2.call.xs[1].key() == key.key() {
+						del = true
+					}
+				}
+				some = some || del
+				all = all && del
+			}
+			if all && some {
+				return true
+			}
+		}
+	}
+	return false
 }
